@@ -19,7 +19,7 @@ ASSUMPTIONS = ['both copies of a shared atom are written with the same element, 
 
 def budget(tier):
     if tier == 'thorough':
-        return dict(examples=1200, shards=16, procs=16)
+        return dict(examples=4000, shards=16, procs=16)
     return dict(examples=700, shards=4, procs=4)
 
 
